@@ -61,6 +61,14 @@ func harvest(kind string, salt uint64) (*bftsim.Sim, []*bftsim.Envelope) {
 }
 
 // sizeRuled: byte-string fields whose length the protocol fixes (keys 48, BLS signatures 96, hashes 32)
+// votePayloadOnly: in a PROPOSE_VOTE / PRECOMMIT_VOTE the certificate's proposer_key is part of the
+// signed payload and nothing else: CheckReplicaMessage never reads it, AddVote files the vote under the
+// hash of its sign bytes, so a vote naming another (or no, or an odd-sized) proposer is a vote for a
+// different payload that never meets the honest quorum. Recorded (histogram / evidence), not failed.
+func votePayloadOnly(kind, path string) bool {
+	return (kind == "PROPOSE_VOTE" || kind == "PRECOMMIT_VOTE") && path == "qc.proposer_key"
+}
+
 func sizeRuled(path string) bool {
 	for _, suf := range []string{"vrf.public_key", "vrf.signature", "qc.proposer_key", "qc.block_hash", "qc.results_hash", "qc.signature.signature",
 		"high_qc.proposer_key", "high_qc.block_hash", "high_qc.results_hash", "high_qc.signature.signature"} {
@@ -129,7 +137,9 @@ func fieldVariants(kind string, base *bft.Message) []msgVariant {
 				if present {
 					add(path, "removed", required(path), func(r protoreflect.Message) { get(r).Clear(fd) })
 				}
-				add(path, "emptied", required(path) || (present && structural(path)), func(r protoreflect.Message) { get(r).Set(fd, protoreflect.ValueOfMessage(get(r).NewField(fd).Message())) })
+				add(path, "emptied", required(path) || (present && structural(path)), func(r protoreflect.Message) {
+					get(r).Set(fd, protoreflect.ValueOfMessage(get(r).NewField(fd).Message()))
+				})
 				if present && depth < 3 {
 					walk(func(r protoreflect.Message) protoreflect.Message { return get(r).Mutable(fd).Message() }, fd.Message(), path+".", depth+1)
 				}
@@ -247,6 +257,17 @@ func RunHandlers(o *drv.Out) {
 				stored = err == nil
 				return asErr(err)
 			})
+			if kind == "ELECTION" {
+				// model: a validly signed candidacy at the right height is accepted iff its VRF is well formed
+				r := "rej"
+				if stored {
+					r = "ok"
+				}
+				if strings.HasPrefix(res, "panic") {
+					r = "panic"
+				}
+				o.Op("electionwf "+msgTok(v.m)+" "+drv.Hex(s.Pubs[e.From]), r)
+			}
 			desc := fmt.Sprintf("%s message, %s %s", kind, v.path, v.what)
 			o.Nontrivial("handler|" + desc)
 			switch {
@@ -263,6 +284,11 @@ func RunHandlers(o *drv.Out) {
 				if !failed["h"+kind] {
 					failed["h"+kind] = true
 					o.Fail("C19:handler-hang:"+kind, "bft.HandleMessage did not return within 5s on a validly signed "+desc, map[string]any{"message": drv.Hex(wire)})
+				}
+			case stored && v.malformed && votePayloadOnly(kind, v.path):
+				o.Count("handler-observed:vote-with-odd-proposer-key-accepted:" + kind)
+				if _, ok := o.Extra["observation_vote_proposer_key_unchecked"]; !ok {
+					o.Extra["observation_vote_proposer_key_unchecked"] = map[string]any{"kind": kind, "change": v.what, "message": drv.Hex(wire), "sender": e.From, "recipient": e.To}
 				}
 			case stored && v.malformed:
 				accepted++
